@@ -63,16 +63,31 @@ fn alter_len(len: usize, arg: i64, bound: usize) -> usize {
     }
 }
 
-fn alter_u64(v: u64, arg: i64) -> u64 {
+/// Alterations of a number. Lengths (and numbers whose role is unknown) only move by small
+/// amounts or to the size of the input, as the property bounds declared lengths by the input size;
+/// entity indices and generations may also take extreme values.
+fn alter_u64(v: u64, arg: i64, bound: usize, extreme_ok: bool) -> u64 {
     match arg.rem_euclid(8) {
         0 => v.wrapping_add(1),
-        1 => v.wrapping_sub(1),
+        1 => v.saturating_sub(1),
         2 => 0,
-        3 => v ^ 0x80,
-        4 => v ^ 1,
-        5 => v.wrapping_add(2),
-        6 => u64::MAX,
-        _ => v ^ 0xFF00,
+        3 => v ^ 1,
+        4 => v.wrapping_add(2),
+        5 => bound as u64,
+        6 => {
+            if extreme_ok {
+                u64::MAX
+            } else {
+                v.wrapping_add(3)
+            }
+        }
+        _ => {
+            if extreme_ok {
+                v ^ (1 << 40)
+            } else {
+                v ^ 2
+            }
+        }
     }
 }
 
@@ -89,7 +104,7 @@ pub fn token_class(t: &Token) -> &'static str {
     }
 }
 
-fn alter_token(t: &Token, arg: i64, bound: usize) -> Token {
+fn alter_token(t: &Token, arg: i64, bound: usize, extreme_ok: bool) -> Token {
     match t {
         Token::Seq { len: Some(n) } => {
             if arg.rem_euclid(6) == 5 {
@@ -103,14 +118,14 @@ fn alter_token(t: &Token, arg: i64, bound: usize) -> Token {
         Token::Struct { name, len } => Token::Struct { name, len: alter_len(*len, arg, bound) },
         Token::TupleStruct { name, len } => Token::TupleStruct { name, len: alter_len(*len, arg, bound) },
         Token::Map { len: Some(n) } => Token::Map { len: Some(alter_len(*n, arg, bound)) },
-        Token::U8(v) => Token::U8(alter_u64(*v as u64, arg) as u8),
-        Token::U16(v) => Token::U16(alter_u64(*v as u64, arg) as u16),
-        Token::U32(v) => Token::U32(alter_u64(*v as u64, arg) as u32),
+        Token::U8(v) => Token::U8(alter_u64(*v as u64, arg, bound, true) as u8),
+        Token::U16(v) => Token::U16(alter_u64(*v as u64, arg, bound, true) as u16),
+        Token::U32(v) => Token::U32(alter_u64(*v as u64, arg, bound, extreme_ok) as u32),
         Token::U64(v) => {
             if arg.rem_euclid(9) == 8 {
                 Token::U8(*v as u8)
             } else {
-                Token::U64(alter_u64(*v, arg))
+                Token::U64(alter_u64(*v, arg, bound, extreme_ok))
             }
         }
         Token::Bytes(b) => {
@@ -218,7 +233,8 @@ pub fn apply_fault(s: &mut Stream, f: &StreamFault) -> bool {
                     true
                 }
                 "alt" => {
-                    let new = alter_token(&tokens[pos], f.arg, n);
+                    let extreme_ok = pos > 0 && matches!(&tokens[pos - 1], Token::Field("index") | Token::Field("generation"));
+                    let new = alter_token(&tokens[pos], f.arg, n, extreme_ok);
                     let changed = new != tokens[pos];
                     tokens[pos] = new;
                     changed
